@@ -68,7 +68,7 @@ def degenerate (weekend : List Int) : Bool := (List.range 7).all fun d => weeken
 def describe (c : Cal) : String :=
   "ok (T " ++ renderInts c.hol ++ " " ++ renderInts c.weekend ++ s!" I:{c.t0} I:{c.t1})"
 
-def handle (s : St) (op : String) (args : List Sexp) : Option (St × String) := do
+def handleCore (s : St) (op : String) (args : List Sexp) : Option (St × String) := do
   match op, args with
   -- every `new*` line goes through `mkCalT`, the constructor that FLOORS the instants it is handed (the object boundary, C05-D2/D3):
   -- `new`:  holidays and range endpoints are midnight datetimes (`day * DAYUS`)
@@ -145,5 +145,12 @@ def handle (s : St) (op : String) (args : List Sexp) : Option (St × String) := 
         let x ← x.toInt?; let y ← y.toInt?; let b ← b.toInt?
         pure (s, resInts (c.drangeBT s.tbl x y b))
     | _, _ => none
+
+/-- `(cal addnp a t <numpy type> n)`: `add(t, n, a)` with the day count held by a numpy integer of the named width (an integer read from an
+array; `is_int` admits np.int8 … np.uint64): an integer is an integer - the same answer as `(cal add a t n)` (defect C05-D4, review5 w3 §2-3) -/
+def handle (s : St) (op : String) (args : List Sexp) : Option (St × String) :=
+  match op, args with
+  | "addnp", [a, t, _, n] => handleCore s "add" [a, t, n]
+  | _, _ => handleCore s op args
 
 end Pyg.CalendarDriver
